@@ -664,7 +664,8 @@ class CrystalMap:
 
             # Insert new (sub)mask into old full mask
             new_is_in_data = self.is_in_data.reshape(self._original_shape).copy()
-            new_is_in_data[self._data_slices_from_coordinates()] = new_is_in_data_slice
+            data_slices = self._data_slices_from_coordinates()
+            new_is_in_data[data_slices] &= new_is_in_data_slice
             new_is_in_data = new_is_in_data.ravel()
 
         # Insert the mask into a mask with the full map shape, if not
@@ -1057,6 +1058,10 @@ class CrystalMap:
             coordinates = self._coordinates
         else:
             coordinates = self._all_coordinates
+        origin = {k: (0 if v is None else np.min(v)) for k, v in self._all_coordinates.items()}
+        coordinates = {
+            k: (None if v is None else v - origin[k]) for k, v in coordinates.items()
+        }
         slices = _data_slices_from_coordinates(coordinates, self._step_sizes)
         return slices
 
